@@ -75,6 +75,30 @@ CHECKS = {
     note='Panics on the tree families of C05-C09 are reported by those checks. Every checked-mode path is replayed natively. '
          'Outside: parser, stack depth.',
     technique='symbolic execution of MIR (panic reachability) + Z3, two overflow modes, native replay', design='6/C04'),
+ 'C11': dict(
+    text='The three report generators (and generate_report with fs::write captured) executed from MIR on symbolic findings maps: file names are symbolic '
+         'members of an ordered family (identity and order decided by Z3 on their rank), line numbers symbolic increasing integers; the resulting text is kept as '
+         'a concatenation of constant and symbolic pieces and must be, for SOME order of patterns and entries, overview ++ for each pattern with findings: the '
+         'section text of the module named after that pattern ++ its own file:line entries — nothing else, nothing missing. Static side condition: no constant '
+         'report text looks like an entry, sections pairwise different (reading back is unambiguous).',
+    note='Vulnerabilities: all 16 subsets, QA: all 8, optimisations: every pattern alone, pairs (60 seeded quick / all 253 thorough), larger subsets, all 23. Every path is '
+         'replayed through the compiled generator (texts must be byte-identical).',
+    technique='symbolic execution of MIR with structured strings + Z3 (ranks, line numbers), native replay of every path', design='6/C11'),
+ 'C12': dict(
+    text='Same encoding as C11 on the families the property names: all 16 subsets of the vulnerability patterns x file/line multiplicities (total printed = '
+         'number of entries listed; a severity heading iff a finding of that severity exists; every vulnerability under its own heading), optimisation totals '
+         'with many entries, and all 8 combinations of empty / non-empty categories in generate_report.',
+    note='The overview functions are executed on a SYMBOLIC total and must render exactly its decimal digits between two constant texts. Severity table taken '
+         'from the property text. Every path replayed natively.',
+    technique='symbolic execution of MIR with structured strings + Z3, native replay of every path', design='6/C12'),
+ 'C13': dict(
+    text='For the same set of findings the report generators are executed under every insertion order of patterns, every discovery order of files and with the '
+         'HashMap iteration order left ARBITRARY (the per-process hash seed becomes a universally quantified choice in the model): all resulting texts must be '
+         'equal; where the pieces differ syntactically Z3 decides whether some value of names / lines makes the texts differ (equal file names in different '
+         'directories are in the family).',
+    note='A counterexample is confirmed by running the compiled generator in 12 fresh processes (different hash seeds) on both insertion orders. '
+         'Bounded to maps of up to 3 patterns with arbitrary iteration order.',
+    technique='symbolic execution of MIR with nondeterministic container iteration + Z3, multi-process native confirmation', design='6/C13'),
 }
 NOT_YET = "check not built yet (framework under construction); see DESIGN.md section 6"
 NA = {
